@@ -42,6 +42,9 @@ CHECKS = {
  "C12": ("exploration", "exhaustive ordered page contents over per-type alphabets vs reference page decode",
    "Every ordered page content up to length m over each type's alphabet with nulls interleaved, for all 24 column kinds and nested contexts: null_count exact, min/max (when present) bound every value in the type's order.",
    "Absent min/max accepted.", "4/C12"),
+ "C13": ("model_checking", "stateless schedule exploration (CHESS-style DFS over choice prefixes, deviation-bounded) of the real code under a cooperative scheduler + separate free-running -race pass",
+   "2-3 independent writer/reader instances run as goroutines under a cooperative scheduler whose points are the pool Get/Put, sink and source operations (pool Get is also a data choice); every execution with <= b preemptions/pool deviations is enumerated for two pool modes and six prior pool contents, and each instance's output must equal its solo run on an ideal pool; use-after-Put and double-Put monitors. The data-race clause is decided by a free-running -race pass of the same bodies.",
+   "Buffers are instance-private between Get and Put (violations of that are what the monitors and poison-on-Put detect); the race clause is dynamic detection on sampled schedules.", "4/C13"),
  "C14": ("exploration", "exhaustive program enumeration of decorations of base struct definitions, byte-for-byte differential against the base",
    "Every insertion of an excluded field (every position, every struct, a menu of Go types and names) and every replacement of a run of fields by an embedded struct is generated, compiled and run next to its base definition; files must be byte-identical for every enumerated value and excluded fields must scan back as zero.",
    "One decoration per program; base definitions are asserted to pass the C05 oracles first.", "4/C14"),
